@@ -18,6 +18,8 @@ KEYMAP = {
     'path-challenge-unpadded': ['C13'], 'path-response-unpadded': ['C13'], 'loss-probe-oversized': ['C13'],
     'migration-': ['C15'], 'path-': ['C15'],
     'determinism-': ['C20'], 'shift-': ['C20'], 'spurious-': ['C20'], 'timeout-settle': ['C20'],
+    'zero-rtt-rejected-credit-update-lost': ['C17', 'C02'], 'zero-rtt-rejected-datagram-exceeds-new-limit': ['C17', 'C02'],
+    'zero-rtt-rejected-limits-not-fresh': ['C17', 'C05'], 'zero-rtt-accepted-limits-not-raised': ['C17', 'C05'],
     'zero-rtt-': ['C17'],
     'routing-forgotten-': ['C08', 'C09'], 'routing-cid-views-': ['C09', 'C08'],
     'routing-': ['C09'], 'isolation-': ['C09'],
